@@ -233,13 +233,13 @@ def _search_target(file, cls, inputs, **cfg):
     return dict(file=file, cls=cls, func="solve", params=[SELFOBJ], defaults=[], ret=BOOL, search=cfg,
                 selfobj=dict(inputs=_S_IN + [(n, INT) if isinstance(n, str) else n for n in inputs], outputs=_S_OUT, calls={}))
 TARGETS["search_mpc"] = _search_target("flowpaths/minpathcover.py", "MinPathCover", ["lb", "nedges"],
-    model_ctors=["kpathcover.kPathCover"], erase_attrs=["solve_time_start", "_solution", "solve_statistics"], erase_locals=["i_solver_options"],
+    model_ctors=["kpathcover.kPathCover"], erase_attrs=["solve_time_start", "_solution", "solve_statistics"],
     texts={"self.get_lowerbound_k()": "lb", "self.G.number_of_edges()": "nedges"}, solved_calls=["self.set_solved()"], chosen_attr="model")
 TARGETS["search_mpcc"] = _search_target("flowpaths/minpathcovercycles.py", "MinPathCoverCycles", ["lb", "nedges"],
-    model_ctors=["kpathcovercycles.kPathCoverCycles"], erase_attrs=["solve_time_start", "_solution", "solve_statistics"], erase_locals=["i_solver_options"],
+    model_ctors=["kpathcovercycles.kPathCoverCycles"], erase_attrs=["solve_time_start", "_solution", "solve_statistics"],
     texts={"self.get_lowerbound_k()": "lb", "self.G.number_of_edges()": "nedges"}, solved_calls=["self.set_solved()"], chosen_attr="model")
 TARGETS["search_mgs"] = _search_target("flowpaths/mingenset.py", "MinGenSet", ["lowerbound", "nnumbers", "extra_cuts"],
-    own_solver=True, build_calls=["self._create_solver"], run_calls=["self.solver.optimize"], erase_attrs=["solve_statistics"], erase_locals=["start_time", "genset_sol"],
+    own_solver=True, build_calls=["self._create_solver"], run_calls=["self.solver.optimize"], erase_attrs=["solve_statistics"],
     texts={"len(self.initial_numbers)": "nnumbers", "sum((len(c) - 1 for c in self.partition_constraints or []))": "extra_cuts"},
     solved_attrs=["_is_solved"], chosen_range_len="_solution")
 
@@ -249,8 +249,8 @@ TARGETS["search_npo"] = _search_target("flowpaths/numpathsoptimization.py", "Num
     model_ctors=["self.model_type"], star_kwargs=True, presolved="o_ext", objective="o_obj",
     erase_attrs=["solve_time_start", "_solution", "solve_statistics"],
     texts={"self.get_lowerbound_k()": "lb", "self.solve_time_elapsed > self.time_limit": "=self.o_over[self.o_n]"},
-    enum=dict(local="solve_status", cls="NumPathsOptimization", names=["solved_status_name", "timeout_status_name", "unbounded_status_name", "infeasible_status_name"]),
-    optional_locals=["previous_solution_objective_value"], truthy_attrs={"stop_on_delta_abs": "o_abs_on", "stop_on_delta_rel": "o_rel_on"},
+    enum=dict(local=None, cls="NumPathsOptimization", names=["solved_status_name", "timeout_status_name", "unbounded_status_name", "infeasible_status_name"]),
+    optional_locals=["*"], truthy_attrs={"stop_on_delta_abs": "o_abs_on", "stop_on_delta_rel": "o_rel_on"},
     solved_calls=["self.set_solved()"], chosen_attr="model")
 
 # a query of stDiGraph on data networkx computed (condensation): the expressions below are inputs of the model
@@ -272,7 +272,7 @@ PRIMITIVES = {
         ("if-test", 0, "self.external_solver == 'highs'"),
         ("if-body", 0, "return self.solver.qsum(expr)")]),
     "add_variables": dict(args="self, indexes, name_prefix: str, lb=0, ub=1, var_type='integer'", path=[
-        ("def-first", 0, "if isinstance(param, (int, float)):\n    return [float(param)] * len(indexes)"),
+        ("def-first", 0, "if isinstance(param, numbers.Real):\n    return [float(param)] * len(indexes)"),
         ("stmt", 1, "lbs = _materialize_bounds(lb, 0.0, 'lb')"),
         ("stmt", 2, "ubs = _materialize_bounds(ub, 1.0, 'ub')"),
         ("if-test", 3, "self.external_solver == 'highs'"),
@@ -314,6 +314,18 @@ def lower_search(fdef, cfg, me, repo, classdef=None):
             raise Unsupported("the status names %s of %s are not distinct string constants" % (names, cfg["enum"]["cls"]), fdef)
         enum = {"%s.%s" % (cfg["enum"]["cls"], x): i + 1 for i, x in enumerate(names)}
     optional = set(cfg["optional_locals"])
+    # roles of locals are found by their use, not by their names: a local that is only ever None or one of the status names is the enum local; a
+    # local that is None at some point and a value at another is optional (its reads are checked below)
+    assigns = {}
+    for n in ast.walk(fdef):
+        if isinstance(n, ast.Assign) and len(n.targets) == 1 and isinstance(n.targets[0], ast.Name): assigns.setdefault(n.targets[0].id, []).append(n.value)
+    is_none_ = lambda e: isinstance(e, ast.Constant) and e.value is None
+    if cfg["enum"]:
+        cands = [v for v, rhs in assigns.items() if any(not is_none_(r) for r in rhs) and all(is_none_(r) or ast.unparse(r) in enum for r in rhs)]
+        if len(cands) == 1: enum_local = cands[0]
+    if cfg["optional_locals"]:
+        optional = {v for v, rhs in assigns.items() if v != enum_local and any(is_none_(r) for r in rhs) and any(not is_none_(r) for r in rhs)
+                    and not any(isinstance(r, ast.Call) and ast.unparse(r.func) in cfg["model_ctors"] for r in rhs)}
 
     def opaque_ok(e):
         for n in ast.walk(e):
@@ -400,7 +412,7 @@ def lower_search(fdef, cfg, me, repo, classdef=None):
     def erasable(st):
         if isinstance(st, ast.Assign) and len(st.targets) == 1:
             t = st.targets[0]
-            if (target_attr(t) in cfg["erase_attrs"] or target_local(t) in cfg["erase_locals"]) and opaque_ok(st.value) \
+            if (target_attr(t) in cfg["erase_attrs"] or target_local(t) in erase_locals) and opaque_ok(st.value) \
                     and (not isinstance(t, ast.Subscript) or opaque_ok(t.slice)): return True
         if isinstance(st, ast.Expr) and isinstance(st.value, ast.Call) and txt(st.value.func).startswith("utils.logger.") and opaque_ok(st.value): return True
         if isinstance(st, ast.Expr) and isinstance(st.value, ast.Call) and txt(st.value.func) in cfg["build_calls"] \
@@ -409,9 +421,43 @@ def lower_search(fdef, cfg, me, repo, classdef=None):
                 and target_attr(st.value.func.value) in cfg["erase_attrs"] and not isinstance(st.value.func.value, ast.Subscript) \
                 and all(opaque_ok(a) for a in st.value.args) and not st.value.keywords: return True
         if isinstance(st, ast.If) and not st.orelse and isinstance(st.test, ast.Compare) and len(st.test.ops) == 1 and isinstance(st.test.ops[0], (ast.In, ast.NotIn)) \
-                and isinstance(st.test.left, ast.Constant) and isinstance(st.test.comparators[0], ast.Name) and st.test.comparators[0].id in cfg["erase_locals"] \
+                and isinstance(st.test.left, ast.Constant) and isinstance(st.test.comparators[0], ast.Name) and st.test.comparators[0].id in erase_locals \
                 and all(erasable(b) for b in st.body): return True
         return False
+
+    # locals that only feed erased bookkeeping (solver options handed to the k-model, start times): every assignment has a pure right-hand side and
+    # every read sits in an erased statement, in a keyword argument (other than k) of the k-model's constructor, or in a log message
+    def erasable_locals():
+        cand = {v for v, rhs in assigns.items() if all(opaque_ok(r) for r in rhs) and not any(isinstance(r, ast.Call) and txt(r.func) in cfg["model_ctors"] for r in rhs)
+                and v != enum_local and v not in optional}
+        for n in ast.walk(fdef):          # subscript stores `L[..] = e` count as assignments of L
+            if isinstance(n, ast.Assign) and len(n.targets) == 1 and isinstance(n.targets[0], ast.Subscript) and isinstance(n.targets[0].value, ast.Name) \
+                    and not (opaque_ok(n.value) and opaque_ok(n.targets[0].slice)): cand.discard(n.targets[0].value.id)
+        changed = True
+        while changed:
+            changed = False
+            ok_nodes = set()         # ids of Name loads that sit in an erasable position w.r.t. the current candidates
+            def mark(e):
+                for x in ast.walk(e):
+                    if isinstance(x, ast.Name) and isinstance(x.ctx, ast.Load): ok_nodes.add(id(x))
+            for n in ast.walk(fdef):
+                if isinstance(n, ast.Assign) and len(n.targets) == 1:
+                    t = n.targets[0]
+                    if target_attr(t) in cfg["erase_attrs"] or target_local(t) in cand or (cfg["chosen_range_len"] and target_attr(t) == cfg["chosen_range_len"]):
+                        mark(n.value)
+                        if isinstance(t, ast.Subscript): mark(t.slice); mark(t.value)
+                    if isinstance(n.value, ast.Call) and txt(n.value.func) in cfg["model_ctors"]:
+                        for k in n.value.keywords:
+                            if k.arg != "k": mark(k.value)
+                if isinstance(n, ast.Expr) and isinstance(n.value, ast.Call) and txt(n.value.func).startswith("utils.logger."): mark(n.value)
+                if isinstance(n, ast.If) and not n.orelse and isinstance(n.test, ast.Compare) and len(n.test.ops) == 1 and isinstance(n.test.ops[0], (ast.In, ast.NotIn)) \
+                        and isinstance(n.test.left, ast.Constant) and isinstance(n.test.comparators[0], ast.Name) and n.test.comparators[0].id in cand: mark(n.test)
+            for x in ast.walk(fdef):
+                if isinstance(x, ast.Name) and isinstance(x.ctx, ast.Load) and x.id in cand and id(x) not in ok_nodes:
+                    cand.discard(x.id); changed = True
+        return cand
+    erase_locals = set(cfg["erase_locals"])
+    erase_locals |= erasable_locals()
 
     def reads(e, name):
         return any(isinstance(n, ast.Name) and n.id == name and isinstance(n.ctx, ast.Load) for n in ast.walk(e))
